@@ -466,7 +466,7 @@ def check(run, replay):
         cases = [replay["case"]]
     else:
         cases = load_corpus("C06")
-        n = 400 if run.tier == "quick" else 1500
+        n = 400 if run.tier == "quick" else 4000
         for _ in range(n):
             cases.append(gen_case(run.rng, run.tier))
         cases.append(clamp_case(run.rng))
